@@ -219,7 +219,7 @@ pub fn memory_check(env: &Env, ctx: &Ctx, args: &[String], n: usize, seed: u64, 
     let info = serde_json::json!({"args": args, "pager": pager, "hunks_small": n, "hunks_large": 4 * n, "input_bytes_small": l1, "input_bytes_large": l4, "heap_in_use_small": h1, "heap_in_use_large": h4});
     let growth = h4 - h1;
     let input_growth = (l4 - l1) as i64;
-    if growth > input_growth / 2 {
+    if growth > input_growth / 4 {
         return (
             Some(Violation::new(
                 "M-memory",
